@@ -474,24 +474,18 @@ def newBlock (cfg : Cfg) (now : Nat) (s : State) (h : Nat) : Acc :=
 def addEdgeDirect (s : State) (a : ChanAnn) (cap : Nat) : State × EdgeRes :=
   if s.g.known a.scid then (s, .ignored) else (s.addChan a cap, .ok)
 
-/-- `makeZombiePubkeys` (graph/db/kv_store.go:3331, shared by the SQL store) **as written**: the
-    arguments are the last-update times of the two policies (if present).  Its doc comment says that
-    in the last case "only an update from edge2 can resurrect the channel"; the code returns `node1`
-    in the second slot (see `strict_zombie_records_wrong_key`). -/
-def makeZombiePubkeys (n1 n2 : Key) (e1 e2 : Option Nat) : Key × Key :=
+/-- `makeZombiePubkeys` (graph/db/kv_store.go:3331, shared by the SQL store); the arguments are the
+    last-update times of the two policies (if present).  Its doc comment says that in the last case
+    "only an update from edge2 can resurrect the channel", i.e. the second slot should hold `node2`
+    (`fixed = true`); the code as written returns `node1` there (`fixed = false`).  Which of the two
+    the tree under test does is measured by the harness on the real store (`FACT zslot2=`). -/
+def makeZombiePubkeys (fixed : Bool) (n1 n2 : Key) (e1 e2 : Option Nat) : Key × Key :=
+  let lagging2 : Key × Key := (0, if fixed then n2 else n1)
   match e1, e2 with
   | none, none => (n1, n2)
   | none, some _ => (n1, 0)
-  | some a, some b => if a < b then (n1, 0) else (0, n1)
-  | some _, none => (0, n1)
-
-/-- what the doc comment of `makeZombiePubkeys` specifies -/
-def makeZombiePubkeysSpec (n1 n2 : Key) (e1 e2 : Option Nat) : Key × Key :=
-  match e1, e2 with
-  | none, none => (n1, n2)
-  | none, some _ => (n1, 0)
-  | some a, some b => if a < b then (n1, 0) else (0, n2)
-  | some _, none => (0, n2)
+  | some a, some b => if a < b then (n1, 0) else lagging2
+  | some _, none => lagging2
 
 /-- `PruneGraphNodes`: nodes without any channel (except our own) are removed. -/
 def Graph.pruneNodes (self : Key) (g : Graph) : Graph :=
@@ -499,13 +493,13 @@ def Graph.pruneNodes (self : Key) (g : Graph) : Graph :=
 
 /-- `DeleteChannelEdges(strict, markZombie = true, c)`: the channel and its policies are deleted and
     the zombie index records who may resurrect it. -/
-def Graph.delZombie (strict : Bool) (g : Graph) (c : Scid) : Graph :=
+def Graph.delZombie (strict fixed : Bool) (g : Graph) (c : Scid) : Graph :=
   match lookup c g.chans with
   | none => g
   | some ci =>
     let e1 := (lookup (c, 0) g.pols).map (·.ts)
     let e2 := (lookup (c, 1) g.pols).map (·.ts)
-    let ks := if strict then makeZombiePubkeys ci.n1 ci.n2 e1 e2 else (ci.n1, ci.n2)
+    let ks := if strict then makeZombiePubkeys fixed ci.n1 ci.n2 e1 e2 else (ci.n1, ci.n2)
     { g with chans := erase c g.chans, pols := erase (c, 1) (erase (c, 0) g.pols),
              zombies := upsert c ks g.zombies }
 
@@ -529,11 +523,11 @@ def isZombieChan (cfg : Cfg) (strict : Bool) (now : Nat) (g : Graph) (c : Scid) 
 /-- `Builder.pruneZombieChans` (without AssumeChannelValid): channels of other nodes that have an
     update older than the prune expiry and are zombies by the (strict / non-strict) rule are deleted
     and marked; if anything was deleted unconnected nodes are collected. -/
-def zombiePrune (cfg : Cfg) (strict : Bool) (now : Nat) (g : Graph) : Graph :=
+def zombiePrune (cfg : Cfg) (strict fixed : Bool) (now : Nat) (g : Graph) : Graph :=
   let victims := g.chans.filter (fun ch =>
     ch.2.n1 != cfg.self && ch.2.n2 != cfg.self && inPruneHorizon cfg now g ch.1 &&
     isZombieChan cfg strict now g ch.1)
   if victims.isEmpty then g
-  else (victims.foldl (fun g ch => g.delZombie strict ch.1) g).pruneNodes cfg.self
+  else (victims.foldl (fun g ch => g.delZombie strict fixed ch.1) g).pruneNodes cfg.self
 
 end LndModel.C20
